@@ -117,6 +117,8 @@ func Run(raw json.RawMessage) (any, error) {
 		qs = []string{"set @@autocommit = 1", "create table t (pk int primary key, c1 int, c2 varchar(40))", "create table u (id int primary key, v int)",
 			"insert into t values (1,1,'a'),(2,2,'b')", "call dolt_commit('-Am','base')",
 			"call dolt_checkout('-b','x')", "insert into t values (77,77,'x')", "call dolt_commit('-am','x 1')", "call dolt_checkout('main')",
+			// main gets x's change through a different commit, so that reverting x's commit on main is a real change
+			"call dolt_cherry_pick('x')",
 			"update t set c1 = 2001 where pk = 1", "call dolt_commit('-am','main A')", "update t set c1 = 2002 where pk = 1", "call dolt_commit('-am','main B')",
 			"set @@dolt_allow_commit_conflicts = 1", "call dolt_revert('HEAD~1','x')", "call dolt_branch('-D','x')"}
 	}
@@ -313,10 +315,18 @@ func Run(raw json.RawMessage) (any, error) {
 	}
 	if c.Continue == "revert" {
 		ns, _ := e.NewSession()
-		for _, q := range []string{"set @@autocommit = 1", "set @@dolt_allow_commit_conflicts = 1", "call dolt_conflicts_resolve('--ours','t')", "call dolt_add('t')", "call dolt_revert('--continue')"} {
+		for _, q := range []string{"set @@autocommit = 1", "set @@dolt_allow_commit_conflicts = 1", "call dolt_conflicts_resolve('--theirs','t')", "call dolt_add('t')", "call dolt_revert('--continue')"} {
 			if r := ns.Exec(q); r.Err != "" {
 				obs.ContErr = q + ": " + r.Err
 				break
+			}
+		}
+		// the whole series must have been applied: main A reverted (c1 back to 1) and x's row gone
+		if obs.ContErr == "" {
+			r := ns.Exec("select pk, c1 from t order by pk")
+			b, _ := json.Marshal(r.Rows)
+			if string(b) != `[["i:1","i:1"],["i:2","i:2"]]` {
+				obs.ContErr = "series not applied: " + string(b) + " " + r.Err
 			}
 		}
 	}
